@@ -703,6 +703,39 @@ def hoist_string_keys(sources: Dict[str, str]) -> Dict[str, str]:
     return out
 
 
+def explain_if_tests(sources: Dict[str, str]) -> Dict[str, str]:
+    """`if <compound test>:` -> `cond_n = <compound test>` on the line before and `if cond_n:` (explaining variable)."""
+    out = {}
+    for p, s in sources.items():
+        tree = ast.parse(s)
+        counter = [0]
+
+        def conv(body):
+            res = []
+            for st in body:
+                for fld in ("body", "orelse", "finalbody"):
+                    sub = getattr(st, fld, None)
+                    if isinstance(sub, list) and sub and isinstance(sub[0], ast.stmt) and not isinstance(st, (ast.ClassDef,)):
+                        setattr(st, fld, conv(sub))
+                for h in getattr(st, "handlers", []) or []:
+                    h.body = conv(h.body)
+                if isinstance(st, ast.If) and isinstance(st.test, (ast.BoolOp, ast.Compare)) and not any(isinstance(x, ast.NamedExpr) for x in ast.walk(st.test)):
+                    counter[0] += 1
+                    nm = f"cond_{counter[0]}"
+                    a = ast.Assign(targets=[ast.Name(id=nm, ctx=ast.Store())], value=st.test)
+                    ast.copy_location(a, st)
+                    st.test = ast.copy_location(ast.Name(id=nm, ctx=ast.Load()), st.test)
+                    res.append(a)
+                res.append(st)
+            return res
+        for fn in ast.walk(tree):
+            if isinstance(fn, (ast.FunctionDef, ast.AsyncFunctionDef)):
+                fn.body = conv(fn.body)
+        ast.fix_missing_locations(tree)
+        out[p] = ast.unparse(tree)
+    return out
+
+
 def rename_all_locals(sources: Dict[str, str]) -> Dict[str, str]:
     out = {}
     for p, s in sources.items():
@@ -784,6 +817,8 @@ def _worker(args):
             overlay = empty_literals_as_calls(sources)
         elif m.old == "<hoist-string-keys>":
             overlay = hoist_string_keys(sources)
+        elif m.old == "<explain-if-tests>":
+            overlay = explain_if_tests(sources)
         elif m.old == "<keywords-at-call-sites>":
             overlay = keywords_at_call_sites(sources)
         elif m.old == "<swap-if-else>":
@@ -837,6 +872,7 @@ GENERIC = [
     M("nested ifs merged into `and` and two-operand `and` guards split into nested ifs", "", None, "<merge-nested-ifs>", "", kind="equiv"),
     M("empty displays written as constructor calls ([] -> list(), {} -> dict())", "", None, "<empty-literals-as-calls>", "", kind="equiv"),
     M("string literals used as keys hoisted into module-level constants", "", None, "<hoist-string-keys>", "", kind="equiv"),
+    M("every compound if-test moved into an explaining variable on the line before", "", None, "<explain-if-tests>", "", kind="equiv"),
     M("methods of every class in reverse source order", "", None, "<reverse-methods>", "", kind="equiv"),
     M("swap the branches of every plain if/else under the negated test", "", None, "<swap-if-else>", "", kind="equiv"),
     M("annotate every local that is assigned once (x = v  ->  x: object = v)", "", None, "<annotate-single-assignments>", "", kind="equiv"),
